@@ -130,12 +130,51 @@ func printUnit(opts Options, out string, r *UnitResult) int {
 		if d.V.Status != "proved" {
 			rc |= 1
 			fmt.Printf("             %s\n             %s\n", d.O.Src, d.V.Output)
+			if d.V.Status == "refuted" && opts.Verbose && d.O.Unit.fn != nil {
+				explain(d.O, out)
+			}
 		}
 	}
 	return rc
 }
 
-func CmdCheck(opts Options, prop string) int      { return 2 }
-func CmdReplay(opts Options, file string) int     { return 2 }
-func CmdSelfcheck(opts Options) int               { return 0 }
-func CmdLedger(opts Options, update bool, props []string) int { return 2 }
+func explain(o *Obligation, out string) {
+	u := o.Unit
+	var probes []probe
+	for i, p := range u.fn.Params {
+		u.walkProbes(p.Name(), u.args[i], p.Type(), 3, &probes)
+	}
+	inVC := map[int]bool{}
+	var mark func(t *Term)
+	mark = func(t *Term) {
+		if inVC[t.id] {
+			return
+		}
+		inVC[t.id] = true
+		for _, a := range t.Args {
+			mark(a)
+		}
+	}
+	for _, a := range o.VC() {
+		mark(a)
+	}
+	var keep []probe
+	for _, p := range probes {
+		if inVC[p.T.id] {
+			keep = append(keep, p)
+		}
+	}
+	probes = keep
+	vals, raw, err := o.GetValues(probes, 20, filepath.Join(out, fileSafe(o.Name)+".model.smt2"))
+	if err != nil {
+		fmt.Println("             model:", err, strings.SplitN(raw, "\n", 2)[0])
+		return
+	}
+	for _, p := range liveProbes(probes, vals) {
+		v := vals[p.Label]
+		if v == "" || v == "0" || v == "false" || v == "(mkref 0 pnil)" || v == "\"\"" || strings.HasPrefix(v, "(mkslice (mkref 0 pnil)") {
+			continue
+		}
+		fmt.Printf("               %s = %s\n", p.Label, v)
+	}
+}
